@@ -631,11 +631,13 @@ Note2: that Reed-Solomon can correct up to 2*resilience_rate erasures (eg, null 
 
             # Main loop: process each ecc entry
             entry = 1 # to start the while loop
+            entry_pos = None
             bardisp = tqdm.tqdm(total=dbsize, file=ptee, leave=True, desc='DBREAD', unit='B', unit_scale=True) # display progress bar based on reading the database file (since we don't know how many files we will process beforehand nor how many total entries we have)
             while entry:
 
                 # -- Read the next ecc entry (extract the raw string from the ecc file)
                 #if replication_rate == 1:
+                if entry_pos: db.seek(entry_pos[1]) # resume the scan exactly at the end of the previous entry: the processing of an entry leaves the cursor wherever its last read ended (fields of a damaged entry found beyond its end, or a last block read overshooting a shortened ecc track), possibly past the next entrymarker, and the next entry would then be silently missed
                 entry_pos = get_next_entry(db, entrymarker)
                 if entry_pos:
                     if bardisp_first_open: bardisp.n = entry_pos[0]-len(entrymarker) # add the size of the comments in the ecc header
